@@ -105,7 +105,83 @@ func TestVerifC14(t *testing.T) {
 			}
 		}
 	})
+	// ---- sequences of different requests through one middleware: every decision depends on its own
+	// request only, and the configuration handed to RequireBearerToken is never altered
+	seq := env.NewCases(res, "request-sequences")
+	synctest.Test(t, func(t *testing.T) {
+		now := time.Now()
+		requiredSets := [][]string{{"a", "b"}, {"b", "a"}, {"a", "b", "c"}}
+		grantedSets := [][]string{nil, {"a"}, {"b"}, {"c"}, {"a", "b"}, {"b", "c"}, {"c", "b", "a"}}
+		for _, req := range requiredSets {
+			var rec func(cur []int)
+			rec = func(cur []int) {
+				if len(cur) > 0 {
+					if idx, mine := seq.Next(); mine {
+						c14Sequence(seq, idx, now, req, grantedSets, cur)
+					}
+				}
+				if len(cur) == 3 {
+					return
+				}
+				for g := range grantedSets {
+					rec(append(append([]int{}, cur...), g))
+				}
+			}
+			rec(nil)
+		}
+	})
 	env.Finish(res)
+}
+
+func c14Sequence(cases *verifx.Cases, idx int, now time.Time, req []string, grantedSets [][]string, order []int) {
+	configured := slices.Clone(req)
+	opts := &RequireBearerTokenOptions{Scopes: req, ResourceMetadataURL: "https://rs.example/.well-known/oauth-protected-resource"}
+	current := 0
+	verifier := func(ctx context.Context, token string, r *http.Request) (*TokenInfo, error) {
+		return &TokenInfo{Scopes: slices.Clone(grantedSets[current]), Expiration: now.Add(time.Hour), UserID: "u"}, nil
+	}
+	ran := 0
+	mw := RequireBearerToken(verifier, opts)(http.HandlerFunc(func(w http.ResponseWriter, r *http.Request) { ran++ }))
+	desc := func() string {
+		var gs []string
+		for _, g := range order {
+			gs = append(gs, fmt.Sprint(grantedSets[g]))
+		}
+		return fmt.Sprintf("required=%v granted per request=%s", configured, strings.Join(gs, " then "))
+	}
+	for step, g := range order {
+		current = g
+		r := httptest.NewRequest("GET", "http://rs.example/mcp", nil)
+		r.Header.Set("Authorization", "Bearer tok")
+		w := httptest.NewRecorder()
+		before := ran
+		mw.ServeHTTP(w, r)
+		admit := true
+		for _, s := range configured {
+			if !slices.Contains(grantedSets[g], s) {
+				admit = false
+			}
+		}
+		switch {
+		case admit && ran != before+1:
+			cases.Violate(idx, "c14 sequence valid-request-rejected", fmt.Sprintf("request #%d holds every required scope but was rejected with %d [%s]", step+1, w.Code, desc()), len(order))
+			return
+		case !admit && ran != before:
+			cases.Violate(idx, "c14 sequence invalid-request-admitted: missing scope", fmt.Sprintf("request #%d lacks a required scope but the handler ran [%s]", step+1, desc()), len(order))
+			return
+		case !admit && w.Code != 403:
+			cases.Violate(idx, fmt.Sprintf("c14 sequence wrong-status-%d", w.Code), fmt.Sprintf("request #%d lacks a required scope: status %d, want 403 [%s]", step+1, w.Code, desc()), len(order))
+			return
+		case !admit && !strings.Contains(w.Header().Get("WWW-Authenticate"), fmt.Sprintf("scope=%q", strings.Join(configured, " "))):
+			cases.Violate(idx, "c14 sequence challenge-missing-scopes", fmt.Sprintf("request #%d: WWW-Authenticate %q does not list the configured scopes %v [%s]", step+1, w.Header().Get("WWW-Authenticate"), configured, desc()), len(order))
+			return
+		}
+		if !slices.Equal(opts.Scopes, configured) {
+			cases.Violate(idx, "c14 sequence configuration-altered", fmt.Sprintf("after request #%d the Scopes slice given to RequireBearerToken reads %v, it was configured as %v [%s]", step+1, opts.Scopes, configured, desc()), len(order))
+			return
+		}
+	}
+	cases.Record(idx, fmt.Sprintf("sequence of %d decided independently", len(order)), len(order), desc)
 }
 
 func c14One(cases *verifx.Cases, idx int, now time.Time, h c14Header, vo string, req, gr []string, exName string, exp time.Time, skew time.Duration, allowMissing, optsNil bool, url string) {
